@@ -48,6 +48,23 @@ class ExceptionType(Monitor):
                     exc=ev['exc'], where=ev['func'], tb=ev.get('tb'))
 
 
+def _has_command(world, w, cmd):
+    from mvf import lang
+    name = (w.get('workflow_name') or '').split('.')[-1]
+    wf = (world.wfdefs or {}).get(name)
+    if not wf:
+        return False
+    try:
+        for t in wf.get('tasks') or {}:
+            for key in lang.CLAUSES:
+                for n, _, _ in lang.clause(wf, t, key):
+                    if n == cmd:
+                        return True
+    except Exception:
+        return False
+    return False
+
+
 class Quiescence(Monitor):
     """C01(a): once everything in flight has been delivered no execution is
     left RUNNING (or its tasks waiting) with nothing pending."""
@@ -67,9 +84,15 @@ class Quiescence(Monitor):
                            for t in rows['task'].values()
                            if t['workflow_execution_id'] == w['id']
                            and t['state'] not in COMPLETED]
+                    if bad and _has_command(world, w, 'succeed'):
+                        # a `succeed` command ends the workflow at once:
+                        # joins created before it stay WAITING (tasks that
+                        # were started must still finish)
+                        bad = [b for b in bad if not b.endswith(':WAITING')]
                     if bad:
                         self.fire('workflow %s SUCCESS with unfinished tasks '
-                                  '%s' % (w['workflow_name'], bad))
+                                  '%s' % (w['workflow_name'], bad),
+                                  mech='unfinished-tasks')
                 continue
             if st == 'PAUSED' and world.allow_paused:
                 continue
